@@ -24,14 +24,11 @@ def load_known():
     p = os.path.join(VERIF, 'known_findings.txt')
     if not os.path.exists(p):
         return out
+    import re
     for line in open(p):
-        line = line.strip()
-        if not line.startswith('finding:'):
-            continue
-        parts = line[len('finding:'):].strip().split(' ', 2)
-        kv = dict(x.split('=', 1) for x in parts[:2] if '=' in x)
-        if 'property' in kv and 'key' in kv:
-            out[(kv['property'], kv['key'])] = parts[2] if len(parts) > 2 else ''
+        m = re.match(r'finding:\s+property=(\S+)\s+key=(?:"([^"]*)"|(\S+))\s*(.*)', line.strip())
+        if m:
+            out[(m.group(1), m.group(2) if m.group(2) is not None else m.group(3))] = m.group(4)
     return out
 
 
